@@ -37,7 +37,8 @@ type Edit struct {
 }
 
 type C20Case struct {
-	Edits []Edit `json:"edits"`
+	Edits  []Edit `json:"edits"`
+	KeyLog bool   `json:"keyLog,omitempty"` // the process is started with a TLS key log file (chf -l <file>)
 }
 
 var (
@@ -97,6 +98,7 @@ var sections = []string{"info", "info.version", "logger", "logger.level", "confi
 
 func genC20(t *rapid.T) C20Case {
 	var c C20Case
+	c.KeyLog = rapid.IntRange(0, 2).Draw(t, "keyLog") == 0
 	n := rapid.SampledFrom([]int{1, 1, 1, 2, 2, 3, 5}).Draw(t, "nEdits")
 	for i := 0; i < n; i++ {
 		switch rapid.IntRange(0, 11).Draw(t, "editKind") {
@@ -263,6 +265,10 @@ func judgeC20(c C20Case) *h.Verdict {
 	defer cancel()
 	cmd := exec.CommandContext(ctx, os.Args[0], "-test.run", "^$")
 	cmd.Env = append(os.Environ(), "VERIF_C20_CHILD="+file)
+	if c.KeyLog {
+		cmd.Env = append(cmd.Env, "VERIF_C20_KEYLOG=1")
+		v.Label("started-with-tls-key-log")
+	}
 	var out bytes.Buffer
 	cmd.Stdout, cmd.Stderr = &out, &out
 	err = cmd.Run()
@@ -326,7 +332,12 @@ func child(file string) int {
 		_ = cfg.GetCertKeyPath()
 	}
 	fmt.Println("STAGE sbi-listener")
-	if err := verifapi.RunSBIServer(); err != nil {
+	keyLog := ""
+	if os.Getenv("VERIF_C20_KEYLOG") != "" {
+		keyLog = file + ".keylog" // the operator asked for a TLS key log (chf -l <file>)
+		defer os.Remove(keyLog)
+	}
+	if err := verifapi.RunSBIServerKeyLog(keyLog); err != nil {
 		fmt.Println("CHILD: SBI server error (not a crash):", err)
 	}
 	time.Sleep(400 * time.Millisecond) // the listeners are started in goroutines
@@ -366,6 +377,14 @@ func TestC20SingleEdits(t *testing.T) {
 					continue
 				}
 				if !yield(C20Case{Edits: []Edit{{Path: p, Op: op}}}) {
+					return
+				}
+			}
+		}
+		// the sections a key log could touch, started with a key log file
+		for j, p := range []string{"configuration.sbi.tls", "configuration.sbi.tls.pem", "configuration.sbi.tls.key", "configuration.nrfCertPem"} {
+			if j%nsh == shard {
+				if !yield(C20Case{KeyLog: true, Edits: []Edit{{Path: p, Op: "drop"}}}) {
 					return
 				}
 			}
